@@ -171,7 +171,7 @@ static DBusMessage *ts_new_reply (DBusMessage *to, int type)
   r->dest = TS_MSG (to)->sender == TS_SND_UNIQUE ? TS_DST_UNIQUE : TS_MSG (to)->sender == TS_SND_CLIENT ? TS_DST_NONE : TS_DST_NAME;
   r->dest_of = TS_MSG (to)->sender == TS_SND_UNIQUE ? TS_MSG (to)->sender_of : NULL;
   r->unknown_stripped = 1; r->container_cleared = 1; r->local_disconnected = 0; r->auto_start = 0; r->no_reply = 1; r->has_fds = 0;
-  r->error_name = TS_ERR_NONE; r->in_reply_to = TS_MSG (to); r->has_string_arg = 0; r->string_arg = NULL; r->refs = 1;
+  r->error_name = TS_ERR_NONE; r->in_reply_to = TS_MSG (to); r->has_string_arg = 0; r->string_arg = NULL; r->n_string_args = 0; r->is_hello = 0; r->refs = 1;
   return (DBusMessage *) r; }
 DBusMessage *dbus_message_new_error (DBusMessage *reply_to, const char *error_name, const char *error_message)
 { PRE (PRE_dbus_message_new_error (reply_to, error_name), "dbus_message_new_error: reply_to has a non-zero serial");
@@ -179,15 +179,31 @@ DBusMessage *dbus_message_new_error (DBusMessage *reply_to, const char *error_na
 DBusMessage *dbus_message_new_method_return (DBusMessage *call)
 { PRE (PRE_dbus_message_new_method_return (call), "dbus_message_new_method_return: call has a non-zero serial");
   return ts_new_reply (call, DBUS_MESSAGE_TYPE_METHOD_RETURN); }
-/* dbus_message_append_args (m, DBUS_TYPE_STRING, &s, DBUS_TYPE_INVALID): the only shape used here */
+/* dbus_message_append_args (m, DBUS_TYPE_STRING, &s, [DBUS_TYPE_STRING, &s, DBUS_TYPE_STRING, &s,] DBUS_TYPE_INVALID): the shapes used here */
 dbus_bool_t dbus_message_append_args (DBusMessage *m, int first_arg_type, ...)
-{ PRE (m != NULL && first_arg_type == DBUS_TYPE_STRING, "dbus_message_append_args (STRING)");
-  va_list ap; va_start (ap, first_arg_type); const char **sp = va_arg (ap, const char **); int end = va_arg (ap, int); va_end (ap);
-  PRE (sp != NULL && *sp != NULL && end == DBUS_TYPE_INVALID, "dbus_message_append_args: one non-NULL string, then DBUS_TYPE_INVALID");
+{ PRE (m != NULL && first_arg_type == DBUS_TYPE_STRING, "dbus_message_append_args (STRING, ...)");
+  va_list ap; va_start (ap, first_arg_type); int type = first_arg_type; int n = 0; const char *first = NULL;
+  for (int i = 0; i < 4 && type != DBUS_TYPE_INVALID; i++)
+    { PRE (type == DBUS_TYPE_STRING, "dbus_message_append_args: STRING arguments only");
+      const char **sp = va_arg (ap, const char **); PRE (sp != NULL && *sp != NULL, "dbus_message_append_args: non-NULL string"); if (n == 0) first = *sp; n++;
+      type = va_arg (ap, int); }
+  va_end (ap);
+  PRE (type == DBUS_TYPE_INVALID, "dbus_message_append_args: terminated by DBUS_TYPE_INVALID");
   if (nondet_bool ()) return 0;
-  TS_MSG (m)->has_string_arg = 1; TS_MSG (m)->string_arg = *sp; return 1; }
+  TS_MSG (m)->has_string_arg = 1; TS_MSG (m)->string_arg = first; TS_MSG (m)->n_string_args = n; return 1; }
 dbus_bool_t dbus_message_has_signature (DBusMessage *m, const char *sig)
-{ PRE (m != NULL && sig != NULL, "dbus_message_has_signature"); return ts_streq (sig, "s") ? TS_MSG (m)->has_string_arg : !TS_MSG (m)->has_string_arg; }
+{ PRE (m != NULL && sig != NULL, "dbus_message_has_signature");
+  int n = 0; for (int i = 0; i < 8 && sig[i] == 's'; i++) n++;
+  return sig[n] == 0 && TS_MSG (m)->n_string_args == n; }
+/* API dbus_message_new_signal (path, iface, name): all non-NULL and valid; the new message has no serial yet */
+DBusMessage *dbus_message_new_signal (const char *path, const char *iface, const char *name)
+{ PRE (path != NULL && iface != NULL && name != NULL, "dbus_message_new_signal");
+  if (nondet_bool () || ts_new_msgs_used >= TS_NMSG) return NULL;
+  struct ts_msg *r = &ts_new_msgs[ts_new_msgs_used++];
+  r->serial = 0; r->reply_serial = 0; r->type = DBUS_MESSAGE_TYPE_SIGNAL; r->sender = TS_SND_CLIENT; r->sender_of = NULL; r->dest = TS_DST_NONE; r->dest_of = NULL;
+  r->unknown_stripped = 1; r->container_cleared = 1; r->local_disconnected = 0; r->auto_start = 0; r->no_reply = 0; r->has_fds = 0; r->is_hello = 0;
+  r->error_name = TS_ERR_NONE; r->in_reply_to = NULL; r->has_string_arg = 0; r->string_arg = NULL; r->n_string_args = 0; r->refs = 1;
+  return (DBusMessage *) r; }
 
 /* DBusList links handed out by the matchmaker (dbus-list.c): only read access by the code under verification */
 DBusList *_dbus_list_get_first_link (DBusList **list) { PRE (list != NULL, "_dbus_list_get_first_link"); return *list; }
@@ -308,7 +324,8 @@ DBusConnection *verif_stub_bus_service_get_primary_owners_connection (BusService
    IMP (!(ret), ERR_SET (error) && IMP (ts_errkind ((error)->name) != TS_ERR_NO_MEMORY, (addressed) == NULL || TS_CONN (addressed)->staged == (staged0))) && \
    IMP ((addressed) != NULL && TS_MSG (m)->has_fds && !TS_CONN (addressed)->can_unix_fd, TS_CONN (addressed)->staged == (staged0) && !(ret)))
 dbus_bool_t verif_stub_bus_dispatch_matches (BusTransaction *t, DBusConnection *sender, DBusConnection *addressed, DBusMessage *m, DBusError *error)
-{ PRE (PRE_bus_dispatch_matches (t, sender, addressed, m, error), "bus_dispatch_matches: message sanitized, has a serial, captured once, sender active, error clear");
+{ PRE (m != NULL && PRE_routed_has_serial (m), "bus_dispatch_matches: the routed message has a non-zero serial (a refusal is reported to the monitors as an error reply to it)");
+  PRE (PRE_bus_dispatch_matches (t, sender, addressed, m, error), "bus_dispatch_matches: message sanitized, captured once, sender active, error clear");
   PRE (error != NULL, "bus_dispatch_matches: error out-parameter");
   G.routed++; G.routed_addressed = TS_CONN (addressed);
   dbus_bool_t ret = nondet_bool ();
@@ -343,7 +360,8 @@ dbus_bool_t verif_stub_bus_matchmaker_get_recipients (BusMatchmaker *mm, BusConn
 
 /* contract of send_one_message (static in dispatch.c; enforced in unit C15.send_one) */
 dbus_bool_t verif_stub_send_one_message (DBusConnection *c, BusContext *ctx, DBusConnection *sender, DBusConnection *addressed, DBusMessage *m, BusTransaction *t, DBusError *error)
-{ PRE (PRE_send_one_message (c, ctx, sender, addressed, m, t, error), "send_one_message: message sanitized, has a serial, error clear");
+{ PRE (m != NULL && PRE_routed_has_serial (m), "send_one_message: the routed message has a non-zero serial");
+  PRE (PRE_send_one_message (c, ctx, sender, addressed, m, t, error), "send_one_message: message sanitized, error clear");
   int k = nondet_int ();
   if (k == 0) { error->name = ts_e_nomem; error->message = ts_s_text; return 0; }                      /* OOM */
   if (k == 1 && IMP (TS_MSG (m)->has_fds, TS_CONN (c)->can_unix_fd)) { TS_CONN (c)->staged++; if (TS_MSG (m)->has_fds) TS_CONN (c)->staged_fd++; G.staged_others++; }
